@@ -12,7 +12,11 @@ fn pop_s(p: &[Individual<P>]) -> String {
     nats(p.iter().map(|i| *i.solution()))
 }
 fn mk(p: &Sx) -> Vec<Individual<P>> {
-    p.items().unwrap().iter().map(|t| Individual::new_unevaluated(t.nat().unwrap())).collect()
+    // evaluated individuals, objective value = tag (needed by SplitPopulationByObjectiveValue)
+    p.items().unwrap().iter().map(|t| {
+        let tag = t.nat().unwrap();
+        Individual::new(tag, mahf::SingleObjective::try_from(tag as f64).unwrap())
+    }).collect()
 }
 
 fn run_case(input: &Sx) -> String {
@@ -36,11 +40,12 @@ fn run_case(input: &Sx) -> String {
             "rot" => catch(|| { state.populations_mut().rotate(a[0].nat().unwrap() as usize); "ok".to_string() }),
             "len" => catch(|| state.populations().len().to_string()),
             "empty" => catch(|| b(state.populations().is_empty())),
-            "c-rot" | "c-clear" | "c-dup" | "c-ileave" => {
+            "c-rot" | "c-clear" | "c-dup" | "c-ileave" | "c-split" => {
                 let c: Box<dyn Component<P>> = match name {
                     "c-rot" => RotatePopulations::new(a[0].nat().unwrap() as usize),
                     "c-clear" => ClearPopulation::new(),
                     "c-dup" => DuplicatePopulation::new(),
+                    "c-split" => SplitPopulationByObjectiveValue::new(),
                     _ => InterleavePopulations::new(),
                 };
                 catch(|| match c.execute(&problem, &mut state) {
@@ -83,7 +88,8 @@ impl Gen {
             82..=83 => "(empty)".into(),
             84..=90 => format!("(c-rot {})", self.rng.below(h + 3)),
             91..=92 => "(c-clear)".into(),
-            93..=95 => "(c-dup)".into(),
+            93..=94 => "(c-dup)".into(),
+            95..=96 => "(c-split)".into(),
             _ => "(c-ileave)".into(),
         }
     }
@@ -96,7 +102,8 @@ fn alphabet(tag: &mut u64) -> Vec<String> {
         format!("(push ({}))", t()), format!("(push ({} {}))", t(), t()), "(push ())".into(),
         "(pop)".into(), "(trypop)".into(), "(cur)".into(), "(getcur)".into(),
         format!("(edit ({}))", t()), format!("(tryedit ({}))", t()),
-        "(len)".into(), "(empty)".into(), "(c-clear)".into(), "(c-dup)".into(), "(c-ileave)".into(),
+        "(len)".into(), "(empty)".into(), "(c-clear)".into(), "(c-dup)".into(), "(c-ileave)".into(), "(c-split)".into(),
+        format!("(push ({} {} {}))", t() + 7, t(), t() + 3),
     ];
     for d in 0..3 { v.push(format!("(peek {d})")); v.push(format!("(trypeek {d})")); }
     for n in 0..4 { v.push(format!("(rot {n})")); v.push(format!("(c-rot {n})")); }
@@ -154,7 +161,7 @@ fn main() {
         let mut h: i64 = 0;
         for _ in 0..len {
             let o = g.op(h.max(0) as u64);
-            if o.starts_with("(push") { h += 1 } else if o.starts_with("(pop") || o.starts_with("(trypop") || o.starts_with("(c-ileave") { h = (h - 1).max(0) }
+            if o.starts_with("(push") || o.starts_with("(c-split") { h += 1 } else if o.starts_with("(pop") || o.starts_with("(trypop") || o.starts_with("(c-ileave") { h = (h - 1).max(0) }
             ops.push(o);
         }
         emit("rand", ops);
